@@ -1116,6 +1116,57 @@ example :
       (·.map (fun t => (t.name, t.dims, t.int32Data))) =
     some [("v0", [], [7]), ("v5", [2], [-1, 1]), ("v3", [2], [-1, 1])] := by decide +kernel
 
+/-- The naming hypothesis discharged from a simpler premise: if the scope's naming is injective (different Vars get
+    different names - what `Scope` guarantees), one producing node per Var is all that is left to assume. -/
+theorem initializers_emitted_exact_of_injective (q : Bool) (name : Nat → String) (args own : List Node)
+    (hinj : ∀ v w, name v = name w → v = w)
+    (hv : ((bearing args own).map Prod.fst).Nodup) :
+    ∃ ts, emit q name args own = some ts ∧
+      (bearing args own).map (fun p => fromArray q p.2 (name p.1)) = ts.map some := by
+  apply initializers_emitted_exact q name args own hv
+  have : (bearing args own).map (fun p => name p.1) = ((bearing args own).map Prod.fst).map name := by
+    simp [List.map_map]
+  rw [this]
+  exact List.Pairwise.map name (fun a b hab e => hab (hinj a b e)) hv
+
+/-! ### Captured at the call, all the way to `graph.initializer` (heap model composed with the initializer table) -/
+
+/-- One `initializer(arr)` call: the Var it yields, the array's element type and shape, the caller's object and the
+    way the constructor stores it. -/
+structure InitSite where
+  var : Nat
+  dtype : DType
+  shape : List Nat
+  arg : Capture.Arg
+  mode : Capture.Mode
+
+/-- The array spox reads from what it stored at the call (heap `h0`) when it builds on the heap `h`. -/
+def InitSite.node (h0 h : Capture.Heap) (s : InitSite) : Node :=
+  .init s.var ⟨s.dtype, s.shape, (Capture.observe h (Capture.capture s.mode h0 s.arg)).flatten, []⟩
+
+/-- **Every history.** For every list of initializer calls whose way of storing is safe for the kind of object handed
+    over (the generated capture table's obligation), every caller heap at the calls and EVERY finite sequence of
+    caller-side mutations between the calls and the build, `graph.initializer` of the model built afterwards is the one
+    that would have been built at the calls - tensor by tensor, name by name. -/
+theorem initializers_captured_at_call (q : Bool) (name : Nat → String) (sites : List InitSite)
+    (hs : ∀ s ∈ sites, Capture.safe s.mode s.arg.kind = true)
+    (h0 : Capture.Heap) (ms : List Capture.Mut) (args : List Node) :
+    emit q name args (sites.map (InitSite.node h0 (Capture.mutate h0 ms))) =
+      emit q name args (sites.map (InitSite.node h0 h0)) := by
+  have : sites.map (InitSite.node h0 (Capture.mutate h0 ms)) = sites.map (InitSite.node h0 h0) := by
+    apply List.map_congr_left
+    intro s hsm
+    simp only [InitSite.node, captured s.mode s.arg (hs s hsm) h0 ms]
+  rw [this]
+
+/-- Non-vacuity: two arrays copied at the call; the caller then overwrites one and empties the other. -/
+example :
+    (emit true (fun v => s!"i{v}") []
+      ([⟨0, .int8, [2], .flat 0, .copy⟩, ⟨1, .uint8, [1], .flat 1, .copy⟩].map
+        (InitSite.node ⟨fun l => if l = 0 then [255, 1] else [7], fun _ => []⟩
+          (Capture.mutate ⟨fun l => if l = 0 then [255, 1] else [7], fun _ => []⟩ [.setFlat 0 [9, 9], .setFlat 1 []])))).map
+      (·.map (fun t => (t.name, t.int32Data))) = some [("i0", [-1, 1]), ("i1", [7])] := by decide +kernel
+
 end Inits
 
 end C10
